@@ -86,13 +86,19 @@ class SymNCO(REINFORCE):
         # Evaluate policy
         out = self.policy(td, self.env, phase=phase, num_starts=n_start)
 
+        # Rows of the policy output are start-major, then augmentation, then instance (the batch is
+        # augmented first and replicated per start afterwards): regroup to [batch_size, n_start, n_aug]
+        def regroup(x):
+            x = unbatchify(x, (n_aug, n_start))  # [batch_size, n_aug, n_start, ...]
+            return x.transpose(1, 2) if (n_aug > 0 and n_start > 0) else x
+
         # Unbatchify reward to [batch_size, n_start, n_aug].
-        reward = unbatchify(out["reward"], (n_start, n_aug))
+        reward = regroup(out["reward"])
 
         # Main training loss
         if phase == "train":
             # [batch_size, n_start, n_aug]
-            ll = unbatchify(out["log_likelihood"], (n_start, n_aug))
+            ll = regroup(out["log_likelihood"])
 
             # Calculate losses: problem symmetricity, solution symmetricity, invariance
             loss_ps = problem_symmetricity_loss(reward, ll) if n_start > 1 else 0
@@ -117,7 +123,7 @@ class SymNCO(REINFORCE):
 
                 # Reshape batch to [batch, n_start, n_aug]
                 if out.get("actions", None) is not None:
-                    actions = unbatchify(out["actions"], (n_start, n_aug))
+                    actions = regroup(out["actions"])
                     out.update(
                         {"best_multistart_actions": gather_by_index(actions, max_idxs)}
                     )
